@@ -9,7 +9,7 @@ ID = "C12"
 LEVEL = "model_checking"
 TECHNIQUE = "breadth-first explicit-state search over write / write-same / sync histories through the real facade against a simulated conformant block target, SG_IO and iSCSI in lock-step, disk state de-duplicated, every state read back in full and compared with a dict reference model"
 RULE = ("events: write10/12/16 and writesame10/16 (incl. unmap, anchor, ndob) over LBAs {0,1,2^32-2,2^32-1 | 2^32, 2^40+3, 2^63+5, 2^64-2, 2^64-1 (16-byte forms)} x "
-        "transfer lengths {0,1,2} x payloads {A,B} plus one all-flags variant per command, WRITE SAME with block counts 0xFFFF / 0x10000 / 0x10003 / 0xFFFFFFFF, synchronizecache10/16; BFS to depth 2 (quick) / 3 "
+        "transfer lengths {0,1,2} x payloads {A,B} plus one all-flags variant per command and one write per payload container kind (bytes, writable / read-only memoryview window at a non-zero offset of a larger buffer), WRITE SAME with block counts 0xFFFF / 0x10000 / 0x10003 / 0xFFFFFFFF, synchronizecache10/16; BFS to depth 2 (quick) / 3 "
         "(thorough) de-duplicating on disk content, per block size in {512, 4096}; each history is replayed from scratch through the facade on a "
         "fresh SG_IO device and a fresh iSCSI device. In every state every read form (read10/12/16, lengths 1..2, one all-flags variant) over every "
         "touched LBA and its neighbours, READ CAPACITY(10/16) and INQUIRY are compared with the model and across transports. states = distinct "
@@ -39,6 +39,10 @@ def events():
                 for p in PAT:
                     ev.append((cmd, lba, tl, p, ()))
         ev.append((cmd, 1, 1, "B", (("dpo", 1), ("fua", 1), ("wrprotect", 5), ("group", 0x15))))
+        # the payload handed over in other containers: bytes, a writable memoryview window into a larger bytearray, a read-only
+        # memoryview window into a larger bytes object (zero-copy chunking of an image), each window starting at a non-zero offset
+        for kind in ("bytes", "mvw", "mvr"):
+            ev.append((cmd, 2, 2, "B", (("_buf", kind),)))
     for cmd, lbas in (("writesame10", l32), ("writesame16", l64)):
         for lba in lbas:
             for nb in (1, 2):
@@ -46,6 +50,8 @@ def events():
                     continue
                 ev.append((cmd, lba, nb, "A", ()))
         ev.append((cmd, 0, 2, "B", (("unmap", 1), ("anchor", 1), ("wrprotect", 3), ("group", 0x0A))))
+        for kind in ("bytes", "mvw", "mvr"):
+            ev.append((cmd, 3, 1, "B", (("_buf", kind),)))
     ev.append(("writesame16", 1 << 33, 0x10000, "B", ()))
     ev.append(("writesame16", (1 << 33) + 5, 0x10003, "A", (("unmap", 1),)))
     ev.append(("writesame16", (1 << 33) - 2, 0xFFFFFFFF, "A", ()))
@@ -102,14 +108,27 @@ def apply_model(model, ev, bs):
         model.log.append((lba, n, blk))
 
 
+def container(kind, payload):
+    if kind == "bytes":
+        return bytes(payload)
+    if kind == "mvw":
+        pool = bytearray(b"\x3c" * 24) + bytearray(payload) + bytearray(b"\xc3" * 8)
+        return memoryview(pool)[24:24 + len(payload)]
+    if kind == "mvr":
+        pool = b"\x3d" * 40 + bytes(payload) + b"\xd3" * 8
+        return memoryview(pool)[40:40 + len(payload)]
+    return bytearray(payload)
+
+
 def do_event(s, ev, bs):
     cmd, lba, n, p, flags = ev
     kw = dict(flags)
+    kind = kw.pop("_buf", None)
     if cmd.startswith("write1"):
-        data = bytearray(b"".join(block(p, bs, i) for i in range(n)))
+        data = container(kind, b"".join(block(p, bs, i) for i in range(n)))
         return getattr(s, cmd)(lba, n, data, **kw)
     if cmd.startswith("writesame"):
-        return getattr(s, cmd)(lba, n, bytearray(block(p, bs)), **kw)
+        return getattr(s, cmd)(lba, n, container(kind, block(p, bs)), **kw)
     return getattr(s, cmd)(lba, n, **kw)
 
 
